@@ -150,6 +150,8 @@ def run_stream(job):
     env = dict(os.environ)
     env.update(job.get("env", {}))
     t0 = time.time()
+    if job.get("xbt"):
+        return run_xbt(job, env, t0)
     if job.get("file"):
         hp = None
         dp = subprocess.Popen([DRIVER, job["file"]], stdout=subprocess.PIPE, text=True)
@@ -197,6 +199,48 @@ def run_stream(job):
         elif l.startswith("C "):
             _, c, k = l.split(" ")
             res.setdefault("cls", {})[c] = res.get("cls", {}).get(c, 0) + int(k)
+    return res
+
+
+_BTTOK = re.compile(r" (u8|u16|u32|u64)(?= )")
+
+
+def run_xbt(job, env, t0):
+    """cross-block-type comparison: identical streams from the instantiations for each block type must print identical
+    transcripts once the block-type token is masked"""
+    outs = []
+    for exe, args in job["xbt"]:
+        r = subprocess.run([exe] + args, stdout=subprocess.PIPE, stderr=subprocess.DEVNULL, env=env, text=True)
+        outs.append((os.path.basename(exe), r.returncode, [_BTTOK.sub(" BT", l) for l in r.stdout.splitlines()]))
+    res = dict(label=job["label"], D=[], S=[], B=[], tags={}, N={}, hrc=0, herr="", wall=0, first=[], marker="", cls={})
+    # compare by INPUT: the same operation on the same operands must print the same result for every block type
+    # (streams may contain seed-dependent extra inputs that differ between instantiations; those are not comparable)
+    def table(lines):
+        t = {}
+        for l in lines:
+            if " => " in l:
+                k, v = l.split(" => ", 1)
+                t.setdefault(k, v)
+        return t
+    ref = outs[0]
+    rt = table(ref[2])
+    n = 0; bad = 0
+    for name, rc, lines in outs[1:]:
+        if rc != 0 or ref[1] != 0:
+            res["hrc"] = rc or ref[1]
+        for k, v in table(lines).items():
+            if k in rt:
+                n += 1
+                if rt[k] != v:
+                    bad += 1
+                    if bad <= 50:
+                        res["S"].append(f"S 0 class=- modeldiff=false reason=result depends on the block type: {ref[0]} gives [{rt[k]}], {name} gives [{v}] | {k} => {v}")
+    if bad:
+        res["cls"]["-"] = bad
+    res["N"] = dict(total=n, ok=n - bad, diff=0, specfail=bad, bad=0, distinct=n)
+    res["tags"] = {"cross-block-type-comparisons": n}
+    res["first"] = ref[2][:1]
+    res["wall"] = time.time() - t0
     return res
 
 
